@@ -1,14 +1,16 @@
 // C25 — history survives a crash at any point.
+//
 // M: MCStoreCrash: every history of <= 4 operations, a crash possible in every state, <= 2 crashes with
-//    Reopen/Continue; PrefixOK and SeqAboveAcked hold with the atomic Commit and TLC finds the torn
-//    state when Commit is split (Atomic = FALSE, vacuity guard).
+// Reopen/Continue; PrefixOK and SeqAboveAcked hold with the atomic Commit and TLC finds the torn
+// state when Commit is split (Atomic = FALSE, vacuity guard).
+//
 // V (real processes): this binary re-executes itself as a child that runs a seeded history against a
-//    real database file with store.NewStore (fsync on) and reports BEGIN k / ACK k result on a pipe.
-//    Crash points: (1) enumerated — one run under strace counts the child's write/sync system calls W,
-//    then for j = 1..W the child is re-run with strace injecting SIGKILL at the j-th such call;
-//    (2) SIGKILL at random times. After each kill the parent reopens the file with store.NewStore,
-//    reads the whole state, continues with a few operations, lets a second child continue the history
-//    and be killed again; the recorded experiment is judged by the TLC walker TraceStoreCrash.
+// real database file with store.NewStore (fsync on) and reports BEGIN k / ACK k result on a pipe.
+// Crash points: (1) enumerated: one run under strace counts the child's write/sync system calls W,
+// then for j = 1..W the child is re-run with strace injecting SIGKILL at the j-th such call;
+// (2) SIGKILL at random times. After each kill the parent reopens the file with store.NewStore,
+// reads the whole state, continues with a few operations, lets a second child continue the history
+// and be killed again; the recorded experiment is judged by the TLC walker TraceStoreCrash.
 package main
 
 import (
@@ -92,14 +94,15 @@ func run(c *lib.Ctx) error {
 	if err := straceWorks(scratch); err != nil {
 		return lib.Infra("strace with signal injection is not usable here: %v", err)
 	}
-	nEnum, nOps, nRandom := c.Pick(3, 40), c.Pick(8, 12), c.Pick(30, 1500)
-	maxPoints := c.Pick(70, 400)
+	nEnum, nOps, nRandom := c.Pick(2, 40), c.Pick(8, 12), c.Pick(24, 1500)
+	maxPoints := c.Pick(40, 400)
 	var groups [][]Event
 	var gmu sync.Mutex
 	t0 := time.Now()
 	// (1) enumerated crash points
 	type job struct {
 		seed int64
+		sys  string
 		j    int
 	}
 	var jobs []job
@@ -111,16 +114,23 @@ func run(c *lib.Ctx) error {
 			wg.Wait()
 			return lib.Infra("counting run: %v", err)
 		}
-		totalW += w
-		c.Logf("history seed %d: %d operations, %d write/sync system calls", seed, nOps, w)
-		for j := 1; j <= w && j <= maxPoints; j++ {
-			jobs = append(jobs, job{seed, j})
+		names := make([]string, 0, len(w))
+		for s := range w {
+			names = append(names, s)
 		}
+		sort.Strings(names)
+		for _, s := range names {
+			totalW += w[s]
+			for j := 1; j <= w[s] && j <= maxPoints; j++ {
+				jobs = append(jobs, job{seed, s, j})
+			}
+		}
+		c.Logf("history seed %d: %d operations, system calls %v", seed, nOps, w)
 	}
 	c.Set("enumerated_syscalls_total", totalW)
 	lib.Parallel(len(jobs), 6, func(i int) {
 		jb := jobs[i]
-		g, err := experiment(c, scratch, fmt.Sprintf("e%d", i), jb.seed, nOps, crashPlan{first: jb.j, second: 1 + int(jb.seed+int64(jb.j)*31)%23})
+		g, err := experiment(c, scratch, fmt.Sprintf("e%d", i), jb.seed, nOps, crashPlan{sys: jb.sys, first: jb.j, second: 1 + int(jb.seed+int64(jb.j)*31)%11})
 		if err != nil {
 			fail(err)
 			return
@@ -163,35 +173,93 @@ func run(c *lib.Ctx) error {
 	return nil
 }
 
+// judge hands the experiments to the TLC walker TraceStoreCrash (groups kept whole, several per TLC
+// process), reports rejected ones and counts which recovery class each crash fell into (tag P).
 func judge(c *lib.Ctx, dir, name string, groups [][]Event) error {
-	bad, err := lib.JudgeGroups(c, name, dir, "TraceStoreCrash", groups, 4, 10*time.Minute)
-	if err != nil {
-		return err
+	const par, target = 4, 400
+	type chunk struct {
+		items []Event
+		gidx  []int // group index of every item
+		off   []int // offset of every item within its group
 	}
-	var flat []Event
-	var starts []int
-	for _, g := range groups {
-		starts = append(starts, len(flat))
-		flat = append(flat, g...)
+	var chunks []*chunk
+	cur := &chunk{}
+	for gi, g := range groups {
+		if len(cur.items) > 0 && len(cur.items)+len(g) > max(target, (totalLen(groups)+par-1)/par) {
+			chunks = append(chunks, cur)
+			cur = &chunk{}
+		}
+		for k, e := range g {
+			cur.items = append(cur.items, e)
+			cur.gidx = append(cur.gidx, gi)
+			cur.off = append(cur.off, k)
+		}
 	}
-	for _, b := range bad {
-		gi := 0
-		for i, s := range starts {
-			if s <= b.Index {
-				gi = i
+	if len(cur.items) > 0 {
+		chunks = append(chunks, cur)
+	}
+	var mu sync.Mutex
+	var firstErr error
+	lib.Parallel(len(chunks), par, func(i int) {
+		ch := chunks[i]
+		r, err := c.TLC(name, lib.TLCRun{Dir: dir, Module: "TraceStoreCrash", Workers: 1, Timeout: 12 * time.Minute, HeapGB: 3,
+			Files: map[string][]byte{"cases.ndjson": lib.NDJSON(ch.items)}})
+		mu.Lock()
+		defer mu.Unlock()
+		if err != nil {
+			if firstErr == nil {
+				firstErr = err
+			}
+			return
+		}
+		if r.ErrKind != "" || r.Distinct != int64(len(ch.items))+1 {
+			if firstErr == nil {
+				firstErr = lib.Infra("walker TraceStoreCrash: %s %s; walked %d states for %d events\n%s", r.ErrKind, r.Err, r.Distinct, len(ch.items), r.ErrTrace)
+			}
+			return
+		}
+		for _, t := range r.Tagged("P") { // <<"P", k, acked, p, attempted>>
+			if len(t) == 4 {
+				k, _ := t[0].(int64)
+				acked, _ := t[1].(int64)
+				p, _ := t[2].(int64)
+				att, _ := t[3].(int64)
+				ev := ch.items[k-1]
+				switch {
+				case !ev.Killed:
+					c.Inc("class_not_killed", 1)
+				case att == acked:
+					c.Inc("class_killed_between_operations", 1)
+				case p == acked:
+					c.Inc("class_inflight_operation_lost", 1)
+				default:
+					c.Inc("class_inflight_operation_committed_unacknowledged", 1)
+				}
 			}
 		}
-		why := "rejected"
-		if len(b.Info) > 0 {
-			why = fmt.Sprint(b.Info[0])
+		for _, t := range r.Tagged("BAD") {
+			if len(t) < 2 {
+				continue
+			}
+			k, _ := t[0].(int64)
+			gi, off := ch.gidx[k-1], ch.off[k-1]
+			why := fmt.Sprint(t[1])
+			if why == "continued-result" && len(t) > 2 {
+				why += ":" + fmt.Sprint(t[2])
+			}
+			ev := ch.items[k-1]
+			c.Reject("crash:"+why, fmt.Sprintf("experiment %s event %d (%s): acked=%d attempted=%d opened=%v next=%d; specification says %v", groups[gi][0].Tag, off, ev.K, ev.Acked, len(ev.Attempted), ev.Opened, ev.Next, t[1:]), groups[gi])
 		}
-		if why == "continued-result" && len(b.Info) > 1 {
-			why += ":" + fmt.Sprint(b.Info[1])
-		}
-		ev := flat[b.Index]
-		c.Reject("crash:"+why, fmt.Sprintf("experiment %s event %d (%s): acked=%d attempted=%d opened=%v next=%d; specification says %v", groups[gi][0].Tag, b.Index-starts[gi], ev.K, ev.Acked, len(ev.Attempted), ev.Opened, ev.Next, b.Info), groups[gi])
+	})
+	return firstErr
+}
+
+func totalLen(groups [][]Event) int {
+	n := 0
+	for _, g := range groups {
+		n += len(g)
 	}
-	return nil
+	return n
 }
 
 func replay(c *lib.Ctx, dir, scratch string) error {
@@ -209,7 +277,7 @@ func replay(c *lib.Ctx, dir, scratch string) error {
 	// deterministic; a random-time kill is re-drawn), then judge; the stored recording is judged too.
 	groups := [][]Event{f.Case}
 	if p := f.Case[0].Plan; p.Seed != 0 {
-		g, err := experiment(c, scratch, "replay", p.Seed, p.Ops, crashPlan{first: p.First, second: p.Second, random: p.Random})
+		g, err := experiment(c, scratch, "replay", p.Seed, p.Ops, crashPlan{sys: p.Sys, first: p.First, second: p.Second, random: p.Random})
 		if err != nil {
 			return err
 		}
